@@ -22,7 +22,8 @@ RULE = (
 REQUIRED = ["construct_contract_evals", "decompose_checked", "string_roundtrip_checked", "variants/renumber",
             "variants/rewrite", "variants/reversed", "synthetic_pairs", "bond_only_on_one_side", "explicit_h_reactions",
             "charge_changing_reactions", "aromatic_order_changes", "history_reduced_attrs_first", "legacy_converter_checked",
-            "generated/spectator_h2", "generated/spectator_bare_h", "generated/element_starting_with_H", "generated/spectator_explicit_h"]
+            "generated/spectator_h2", "generated/spectator_bare_h", "generated/element_starting_with_H", "generated/spectator_explicit_h",
+            "generated/spectator_wildcard_atom", "hydrogen_count_only_reactions"]
 ASSUMPTIONS = [
     "reference reader: RDKit MolFromSmiles(sanitize=False)+SanitizeMol (keeps mapped hydrogens), canonical non-isomeric SMILES",
     "stereochemistry is not carried by the graph layer and is not compared",
@@ -332,6 +333,14 @@ def check_synthetic(ctx, G, H, tag):
              sample={"space": tag, **wit} if ctx.rng.random() < 0.002 else None)
 
 
+# no bond between mapped atoms changes and no charge changes: only hydrogen counts move (radical hydrogen abstraction)
+HAT_RXNS = [
+    "[CH4:1].[Cl:2]>>[CH3:1].[ClH:2]",
+    "[CH3:1][OH:2].[CH3:3]>>[CH3:1][O:2].[CH4:3]",
+    "[CH3:1][SH:2].[OH:3]>>[CH3:1][S:2].[OH2:3]",
+    "[CH3:1][CH3:2].[Br:3]>>[CH3:1][CH2:2].[BrH:3]",
+    "[CH3:1][CH:2]=[O:3].[OH:4]>>[CH3:1][C:2]=[O:3].[OH2:4]",
+]
 GAP_RXNS = [
     "[Pd:1].[P:2]([CH3:3])([CH3:4])[CH3:5]>>[Pd:1]<-[P:2]([CH3:3])([CH3:4])[CH3:5]",
     "[Pt:1].[CH3:2][S:3][CH3:4]>>[CH3:2][S:3]([CH3:4])->[Pt:1]",
@@ -371,6 +380,12 @@ def run(ctx):
             ctx.count("generated/" + tg)
         check_reaction(ctx, r, "generated", "generated explicit-hydrogen reactions")
         check_reaction(ctx, corpus.shuffle_fragments(corpus.renumber(r, rng), rng), "generated", "generated explicit-hydrogen reactions")
+    for i, r in enumerate(HAT_RXNS):
+        if ctx.mine(i):
+            ctx.count("hydrogen_count_only_reactions")
+            check_reaction(ctx, r, "identity", "hydrogen-atom transfers written with implicit hydrogens")
+            check_reaction(ctx, corpus.renumber(r, rng), "renumber", "hydrogen-atom transfers written with implicit hydrogens")
+            check_reaction(ctx, corpus.reverse(r), "reversed", "hydrogen-atom transfers written with implicit hydrogens")
     for i, r in enumerate(GAP_RXNS):
         if ctx.mine(i):
             check_reaction(ctx, r, "identity", "isotope-labelled / dative-bond reactions")
